@@ -184,7 +184,7 @@ func candidates(sc *Scenario) []func() *Scenario {
 			}
 		}
 	})
-	for name := range gens {
+	for _, name := range sortedKeys(gens) {
 		name := name
 		add(func(c *Scenario) bool {
 			allRuns(c, func(r *RunOp) {
